@@ -132,7 +132,7 @@ def cox_global_task(T, sparse):
     """Cox.get_global_lipschitz(_sparse): the REAL method on a 3 x 2 design with symbolic censoring indicators s_i >= 0 and times.
     Contract:  result * (A^T A)[j][k] == S^2 * (sum_i s_i / n) * (X^T X)[j][k]   -- the constant is (sum_i s_i / n) ||X||_2^2, and
     sum_i s_i / n bounds every entry of the diagonal curvature bound raw_hessian (obligation `raw_hessian[i]<=sum(s)/n` of
-    contracts/c06b.py, n = 2, every tie / censoring pattern), which dominates the Hessian (c06b: diagonal, and determinant in the thorough tier)."""
+    contracts/c06b.py, n = 2, every tie / censoring pattern), which bounds the diagonal of the Hessian (c06b; full PSD dominance of diag(raw_hessian) is only an `extended`-tier query, solver-unstable, not claimed)."""
     import z3
     from pv import sym, symrun
     from pv.sproof import check_contract, zpre
